@@ -1531,10 +1531,108 @@ def correspondence(ctx, H, goals, label):
     return ndis
 
 
+
+# ---------------------------------------------------------------------------------------------
+# Gen.lean: tables of prover/z3wrapper.py read with `ast` (never imported for this)
+# ---------------------------------------------------------------------------------------------
+def gen_lean(ctx):
+    with open(os.path.join(ctx.repo, "prover", "z3wrapper.py"), encoding="utf-8") as f:
+        tree = pyast.parse(f.read())
+    thms, flag = None, None
+    for node in tree.body:
+        if isinstance(node, pyast.Assign) and len(node.targets) == 1 and isinstance(node.targets[0], pyast.Name):
+            if node.targets[0].id == "norm_thms":
+                thms = []
+                for e in node.value.elts:
+                    v = pyast.literal_eval(e)
+                    if isinstance(v, str):
+                        thms.append((v, False))
+                    else:
+                        assert isinstance(v, tuple) and len(v) == 2 and v[1] is True, "untranslatable: norm_thms entry %r" % (v,)
+                        thms.append((v[0], True))
+            elif node.targets[0].id == "check_z3":
+                flag = pyast.literal_eval(node.value)
+    assert thms is not None, "untranslatable: norm_thms not found"
+    assert isinstance(flag, bool), "untranslatable: check_z3 is not a literal bool"
+    items = ", ".join('("%s", %s)' % (n, "true" if b else "false") for n, b in thms)
+    return ("/- GENERATED by harness/props/c06.py from prover/z3wrapper.py (`norm_thms`); do not edit. -/\n"
+            "namespace Holpy.C06.Gen\n\n"
+            "/-- (theorem name, used right-to-left) in the order `norm_term` applies them -/\n"
+            "def normThms : List (String × Bool) := [%s]\n\n"
+            "/-- `check_z3 = True` at module level -/\n"
+            "def checkZ3Default : Bool := %s\n\n"
+            "end Holpy.C06.Gen\n" % (items, "true" if flag else "false"))
+
+
+def load_corpus(ctx):
+    p = os.path.join(ctx.verif, "corpus", "c06.json")
+    if not os.path.exists(p):
+        return [], []
+    with open(p) as f:
+        d = json.load(f)
+    return [totuple(g) for g in d.get("z3", [])], [(totuple(g), totuple(c) if c else None) for g, c in d.get("sympy", [])]
+
+
+def sympy_check_one(ctx, H, goal, cond, mode, label):
+    res = call_sympy(H, goal, cond, mode)
+    ctx.case(("sympy", canon(goal), canon(cond) if cond else None), nontrivial=size(goal) >= 4)
+    ctx.count("sympy:%s:%s" % (label, res if not res.startswith("raise") else "fails-with-exception"))
+    if res.startswith("raise"):
+        ctx.count("sympy:exc:" + res[6:])
+    if res != "accept":
+        return False
+    pt = sympy_counterexample(goal, cond)
+    if pt is not None:
+        ctx.violation("sympy:accepts-invalid:%s|%s" % (canon(goal), canon(cond) if cond else ""),
+                      "sympywrapper (%s) accepts %s%s, which is false in HOL at x = %s" % (
+                          mode, H.term(goal), " under " + str(H.term(cond)) if cond else "", pt),
+                      {"kind": "sympy", "goal": tolist(goal), "cond": tolist(cond) if cond else None, "mode": mode, "x": str(pt)})
+    else:
+        ctx.count("sympy:oracle:no-counterexample-on-grid")
+    return True
+
+
 def run(ctx):
+    ctx.coverage["rule"] = (
+        "Z3: goals of the translatable fragment built from ~150 families of valid facts and near misses (truncated nat subtraction, "
+        "non-negativity of nat terms, nat/int/real/'a/bool binders at both polarities, of_nat of free and bound variables, division by "
+        "variables, by literals and by zero, quotients of literals, min/max/abs, if-then-else, interval membership, uninterpreted "
+        "functions and sets, untranslatable premises/conclusions, function equations, one name at two types) over random subterms of "
+        "depth <= 2, wrapped at varying polarity, plus random formulas of depth <= 3; every 5th goal goes through Z3Macro.eval with the "
+        "premises as previous theorems. SymPy: equations, disequations and relations over rational expressions in x (/, abs, powers, "
+        "nat literal arithmetic), with and without a rational closed/open interval condition; every 4th through the macro. "
+        "non-trivial = at least 5 (Z3) / 4 (SymPy) nodes; distinct by the goal's syntax tree.")
+    ctx.coverage["trusted_base"] += []
+    # 1. generated tables + Lean obligations
+    try:
+        if ctx.write_if_changed("Holpy/C06/Gen.lean", gen_lean(ctx)):
+            ctx.log("Gen.lean regenerated (changed)")
+    except Exception as e:  # noqa
+        ctx.broken("translate:c06:norm_thms", "untranslatable: %r" % (e,))
+    proofs_ok = ctx.lean_props(["Holpy.C06.Props"], exes=[EXE])
+    if ctx.tier == "thorough" and proofs_ok:
+        ctx.lean_check_modules(["Holpy.C06.Props"])
+    ctx.coverage["trusted_base"] += [
+        "Z3 (the wrapper's verdict `unsat` and, in the oracle, the independent encoding's verdicts) and SymPy (automatic simplification, "
+        "is_zero, solveset) themselves",
+        "harness/props/c06.py: generators, reader of holpy terms (term_to_h), walker of z3py ASTs, independent encoding, exact evaluator",
+        "norm_term's rewriting (kernel conversions with library theorems) and fologic.simplify are not modelled: the model starts from "
+        "the terms convert receives; their effect is covered by the oracles only"]
+    ctx.assumptions += [
+        "theorems are about the code with fixes/C06-1..8.patch applied; on the unfixed tree the oracle reports the defects as violations",
+        "solve_sound_partial assumes the valuation reads auxiliary constants as intended (freshness of generated names not proved in Lean)",
+        "Z3 timeouts (2 s quick / 4 s thorough, set in the harness process) count as rejections",
+        "SymPy: transcendental functions, sqrt and real powers are outside the explored fragment (their HOL values off-domain are unspecified)"]
     H = Holpy(ctx)
     H.z3.set_param("timeout", ctx.scale(2000, 4000))
     flag_checks(ctx, H)
+    # 2. corpus first
+    cz, cs = load_corpus(ctx)
+    z3_check_goals(ctx, H, cz, ctx.rng("corpus"), "corpus")
+    for goal, cond in cs:
+        sympy_check_one(ctx, H, goal, cond, "direct", "corpus")
+        sympy_check_one(ctx, H, goal, cond, "macro", "corpus")
+    # 3. Z3 oracle stream
     rng = ctx.rng("z3")
     g = G(rng)
     goals = [g.goal() for _ in range(ctx.scale(700, 6000))]
@@ -1542,14 +1640,60 @@ def run(ctx):
         ctx.sample({"z3_goal": str(H.term(x))})
     n = z3_check_goals(ctx, H, goals, ctx.rng("z3-oracle"), "gen")
     ctx.log("z3 stage: %d goals, %d accepted" % (len(goals), n))
+    # 4. SymPy oracle stream
     sympy_stage(ctx, H)
-    correspondence(ctx, H, goals, "gen")
-    ctx.log(json.dumps(ctx.coverage["histogram"], indent=0, sort_keys=True))
+    # 5. correspondence with the model
+    correspondence(ctx, H, cz + goals, "gen")
+    must = ["z3:gen:accept", "z3:gen:reject", "z3:oracle:valid-by-oracle", "sympy:plain:accept", "sympy:interval:accept", "corr:gen:agree",
+            "corr:kind:error:z3exc"]
+    missing = [m for m in must if not ctx.coverage["histogram"].get(m)]
+    if missing:
+        ctx.broken("coverage:c06", "branches never reached: %s" % missing)
 
 
 def replay(ctx, rp):
-    return False
+    """Re-run one recorded failing input on the implementation; True if it still fails."""
+    H = Holpy(ctx)
+    H.z3.set_param("timeout", 10000)
+    r = rp["replay"]
+    if r.get("kind") == "z3":
+        z3_check_goals(ctx, H, [totuple(r["goal"])] * 5 if r.get("via_macro") else [totuple(r["goal"])], ctx.rng("replay"), "replay")
+    elif r.get("kind") == "sympy":
+        sympy_check_one(ctx, H, totuple(r["goal"]), totuple(r["cond"]) if r.get("cond") else None, r.get("mode", "direct"), "replay")
+    elif r.get("kind") == "flag":
+        flag_checks(ctx, H)
+    for v in ctx.violations:
+        print("still fails:", v[1][:300])
+    return bool(ctx.violations)
 
 
-MANIFEST = {"text": "", "note": "", "design_ref": "DESIGN.md 4/C06"}
-FINDINGS = []
+MANIFEST = {
+    "text": "Lean model of z3wrapper.convert/solve_core (with the Python-level literal folding, z3py operand reflection, side tables) and of "
+            "the sympywrapper decision logic; theorems: convert preserves meaning exactly (all polarities, quantifiers, for every ordered "
+            "field and every interpretation), nat binders are relativised correctly, solve is sound when Z3's unsat is right (partial: "
+            "freshness of generated names), SymPy acceptance logic sound for an abstract value-preserving normaliser. Tied to the code by "
+            "differential runs of solve_core against the model and by regenerating norm_thms/check_z3. Every acceptance of the real "
+            "wrappers is judged by an independent encoding + exact evaluation + brute force (Z3) and by rational grid search (SymPy).",
+    "note": "Trusted: Lean kernel, Z3 and SymPy themselves, the harness (generators, term reader, independent encoding, evaluator), "
+            "norm_term/fologic.simplify (oracle-covered only). Theorems hold for the tree with fixes/C06-1..8.patch; the pinned tree "
+            "violates the property in eight ways (see FINDINGS).",
+    "design_ref": "DESIGN.md 4/C06",
+}
+FINDINGS = [
+    {"status": "fixed", "key": "z3:nat-binders-not-relativised", "commit": "fixes/C06-1.patch",
+     "what": "z3wrapper.solve(~(!x::nat. 0 <= x)) and solve(?x::nat. x < 0) returned True: nat binders ranged over all integers"},
+    {"status": "fixed", "key": "z3:of_nat-of-bound-variable", "commit": "fixes/C06-2.patch",
+     "what": "solve(?x::nat. ~(of_nat x = (of_nat (if x = x then x else 0)::real))) returned True: of_nat of a bound variable became a free real constant"},
+    {"status": "fixed", "key": "z3:function-equation-is-False", "commit": "fixes/C06-3.patch",
+     "what": "solve(f = g --> false) and solve(~(f = g)) returned True for f, g :: nat => nat: == on Z3 function declarations is syntactic"},
+    {"status": "fixed", "key": "z3:same-name-two-types", "commit": "fixes/C06-4.patch",
+     "what": "solve((x::nat) = 0 --> (x::int) = 0) returned True: both variables became the Z3 constant x of sort Int"},
+    {"status": "fixed", "key": "sympy:structural-disequality", "commit": "fixes/C06-5.patch",
+     "what": "sympywrapper.solve_goal(~((x + 1) * (x + 1) = x * x + 2 * x + 1)) returned True: lhs != rhs is syntactic"},
+    {"status": "fixed", "key": "sympy:nat-subtraction", "commit": "fixes/C06-6.patch",
+     "what": "solve_goal(~((2::nat) - 3 = 0)) and solve_goal((3::nat) - 5 < 0) returned True: nat subtraction not truncated"},
+    {"status": "fixed", "key": "sympy:division-by-zero", "commit": "fixes/C06-7.patch",
+     "what": "solve_goal(x / x = 1), solve_with_interval(x / x >= 1, x Mem [0,1]), solve_with_interval(~(1 / x = 0), x Mem [-1,1]) returned True: SymPy's x/x = 1 and 1/0 = zoo against HOL's x / 0 = 0"},
+    {"status": "fixed", "key": "z3:real-literals-as-python-numbers", "commit": "fixes/C06-8.patch",
+     "what": "solve((if p then (1::real) else 3) / 2 = (if p then 0 else 1)) returned True (integer division on sort Int) and solve(~((2::real) / 6 = 1 / 3)) returned True (Python float division)"},
+]
